@@ -401,12 +401,18 @@ class ProductSpace(LinearSpace):
     @property
     def real_space(self):
         """Variant of this space with real dtype."""
-        return ProductSpace(*[space.real_space for space in self.spaces])
+        kwargs = self._subspace_kwargs(slice(None))
+        kwargs.pop('field', None)
+        return ProductSpace(*[space.real_space for space in self.spaces],
+                            **kwargs)
 
     @property
     def complex_space(self):
         """Variant of this space with complex dtype."""
-        return ProductSpace(*[space.complex_space for space in self.spaces])
+        kwargs = self._subspace_kwargs(slice(None))
+        kwargs.pop('field', None)
+        return ProductSpace(*[space.complex_space for space in self.spaces],
+                            **kwargs)
 
     def astype(self, dtype):
         """Return a copy of this space with new ``dtype``.
@@ -434,8 +440,11 @@ class ProductSpace(LinearSpace):
         if dtype == current_dtype:
             return self
         else:
+            # Keep weighting and exponent (not the field, which can change)
+            kwargs = self._subspace_kwargs(slice(None))
+            kwargs.pop('field', None)
             return ProductSpace(*[space.astype(dtype)
-                                  for space in self.spaces])
+                                  for space in self.spaces], **kwargs)
 
     def element(self, inp=None, cast=True):
         """Create an element in the product space.
